@@ -261,10 +261,21 @@ ClientRoundTrip(r, o) ==
     Expressible(r, "client-wsgi") => View(ClientSends(ToClientArgs(r)), o) = View(r, o)
 
 (* ------------------------------------------------------------------ generated application logic *)
-(* responder kinds of the generated application and the status each must produce once reached *)
-ResponderStatus(k) ==
-    CASE k = "echo" -> 200 [] k = "text" -> 201 [] k = "data" -> 200 [] k = "stream" -> 200
+(* Responders of the generated application.  A "plain" responder sets a status, at most one body
+   source and optionally a Content-Type of its own (p = [status, source, ctype]); the other kinds are
+   fixed scripts (errors, redirects, cookies, repeated fields ...).  Each must produce its status
+   once reached. *)
+PlainSources == {"none", "text", "data", "media", "stream"}
+NoPlain == [status |-> 200, source |-> "none", ctype |-> FALSE]
+ResponderStatus(k, p) ==
+    CASE k = "plain" -> p.status
+      [] k = "echo" -> 200 [] k = "text" -> 201 [] k = "data" -> 200 [] k = "stream" -> 200
       [] k = "error" -> 400 [] k = "notfound" -> 404 [] k = "redirect" -> 302 [] k = "status" -> 202
       [] k = "nocontent" -> 204 [] k = "uncaught" -> 500 [] k = "invalidhdr" -> 400 [] k = "media" -> 200
       [] OTHER -> 0
+(* Which interface can report the response at all: the WSGI test client passes every response through
+   wsgiref.validate (documented), which refuses a Content-Type on a 204/304; the application-set one is
+   kept by the framework, so that driver raises instead of returning a result. *)
+Reportable(iface, k, p) ==
+    iface = "client-wsgi" => ~(k = "plain" /\ p.status \in {204, 304} /\ p.ctype)
 =============================================================================
